@@ -996,6 +996,16 @@ impl<'r> Gen<'r> {
                     if has_anon {
                         self.p.raise_anon_stmts.push((first, self.p.toks.len() - 1));
                     }
+                    if !has_anon && self.o.extended && self.rng.chance(1, 6) {
+                        self.feat("raise-at");
+                        self.kw("at");
+                        if self.rng.bool() {
+                            self.push("ReturnAddress", GK::Ident);
+                        } else {
+                            self.op("@");
+                            self.push("DoIt", GK::Ident);
+                        }
+                    }
                 }
             }
             41..=42 => {
@@ -1896,7 +1906,15 @@ impl<'r> Gen<'r> {
                     let w = *self.rng.pick(&["False", "True", "IsStored"]);
                     self.push(w, GK::Ident);
                 }
-                if is_class && self.rng.chance(1, 6) {
+                if is_class && self.o.extended && self.rng.chance(1, 10) {
+                    self.feat("property-implements");
+                    self.kw("implements");
+                    self.push("IFoo", GK::Ident);
+                    if self.rng.chance(1, 3) {
+                        self.op(",");
+                        self.push("IBar", GK::Ident);
+                    }
+                } else if is_class && self.rng.chance(1, 6) {
                     self.kw("default");
                     self.number_small();
                 } else if is_class && self.o.extended && self.rng.chance(1, 10) {
@@ -2119,7 +2137,69 @@ impl<'r> Gen<'r> {
     /// helper types, class references: `class helper for TFoo ... end`, `record helper for TRec ... end`,
     /// `class of TFoo`
     fn extended_type_rhs(&mut self, name_tok: usize) {
-        match self.rng.below(3) {
+        match self.rng.below(5) {
+            3 => {
+                self.feat("distinct-type");
+                self.kw("type");
+                let t = *self.rng.pick(&["Integer", "string", "TFoo", "Double"]);
+                self.push(t, GK::Ident);
+            }
+            4 => {
+                self.feat("dispinterface-type");
+                let head = self.kw("dispinterface");
+                self.mark_line_end();
+                let body_bi = self.p.blocks.len();
+                self.p.blocks.push(Block { kind: BlockKind::TypeBody, opener: head, closer: None, items: vec![], anchors: vec![name_tok] });
+                self.depth += 1;
+                if self.rng.bool() {
+                    let g = self.op("[");
+                    self.mark_line_start(g);
+                    self.p.blocks[body_bi].items.push(g);
+                    self.push("'{12345678-1234-1234-1234-1234567890AB}'", GK::Str);
+                    self.op("]");
+                    self.mark_line_end();
+                }
+                let c = self.rng.range(1, 4);
+                for k in 0..c {
+                    let first = self.p.toks.len();
+                    match self.rng.below(3) {
+                        0 => {
+                            self.kw("procedure");
+                            self.new_name("M");
+                            if self.rng.bool() {
+                                self.param_list();
+                            }
+                            self.semi();
+                        }
+                        1 => {
+                            self.kw("function");
+                            self.new_name("M");
+                            self.op(":");
+                            self.type_ident(false);
+                            self.semi();
+                        }
+                        _ => {
+                            self.kw("property");
+                            self.new_name("Prop");
+                            self.op(":");
+                            self.type_ident(false);
+                            if self.rng.chance(1, 3) {
+                                let ro = self.rng.bool();
+                                self.kw(if ro { "readonly" } else { "writeonly" });
+                            }
+                        }
+                    }
+                    self.kw("dispid");
+                    self.push(&format!("{}", k + 1), GK::Number);
+                    self.semi();
+                    self.mark_line_start(first);
+                    self.p.blocks[body_bi].items.push(first);
+                }
+                self.depth -= 1;
+                let e = self.kw("end");
+                self.mark_line_start(e);
+                self.p.blocks[body_bi].closer = Some(e);
+            }
             0 => {
                 self.feat("class-reference-type");
                 self.kw("class");
@@ -2360,11 +2440,40 @@ impl<'r> Gen<'r> {
                                 self.type_ident(false);
                             }
                             self.semi();
-                            if self.rng.chance(3, 4) {
+                            if self.o.extended && self.rng.chance(1, 3) {
+                                self.kw("stdcall");
+                                self.semi();
+                            }
+                            if self.rng.chance(3, 5) {
                                 self.kw("forward");
+                                if self.o.extended && self.rng.chance(1, 3) {
+                                    // directives may follow `forward`
+                                    self.feat("forward-then-directive");
+                                    self.semi();
+                                    self.kw("overload");
+                                }
                             } else {
                                 self.kw("external");
                                 self.push("'lib.dll'", GK::Str);
+                                if self.o.extended {
+                                    match self.rng.below(5) {
+                                        0 => {
+                                            self.feat("external-name");
+                                            self.kw("name");
+                                            self.push("'Sym'", GK::Str);
+                                        }
+                                        1 => {
+                                            self.feat("external-index");
+                                            self.kw("index");
+                                            self.number_small();
+                                        }
+                                        2 => {
+                                            self.feat("external-delayed");
+                                            self.kw("delayed");
+                                        }
+                                        _ => {}
+                                    }
+                                }
                             }
                             self.semi();
                             self.mark_line_start(first);
